@@ -7,6 +7,7 @@ CONSTANTS
   Chunked = TRUE
   NoRangeLen = 0
   CodeDen = {}
+  Dims = 1
 INVARIANTS Partition
 POSTCONDITION TraceAccepted
 CHECK_DEADLOCK FALSE
